@@ -8,7 +8,7 @@ def passCond : String := "C.Skip() == nil && len(C.Errors()) == 0 && len(C.Failu
 def errorsCond : String := "C.Skip() == nil && C.Success() == nil && len(C.Errors()) > 0"
 def failuresCond : String := "C.Skip() == nil && C.Success() == nil && len(C.Errors()) == 0 && len(C.Failures()) > 0"
 def skipsCond : String := "C.Skip() != nil"
-def flakyCond : String := "C.Success() != nil && len(C.Executions) > 1"
+def flakyCond : String := "(len(C.Failures()) > 0 || len(C.Errors()) > 0) && C.Skip() == nil && C.Success() != nil"
 def allSucceededCond : String := "C.Skip() == nil && C.Success() == nil => return false; return true"
 def testsExpr : String := "return len(testSuite.TestCases)"
 def matchCond : String := "OLD.ClassName == NEW.ClassName && OLD.Name == NEW.Name"
@@ -20,10 +20,10 @@ def flakeLoopSteps : List String := ["run", "add:RUN.TestCases...)", "break-if:R
 def appendChain : List String := ["test.Failure != nil:appendFailure", "test.Error != nil:appendError", "test.Skipped != nil:appendSkipped", "else:appendSuccess"]
 def appendLoops : List String := ["test.FlakyFailure:appendFlakyFailure", "test.FlakyError:appendFlakyError", "test.RerunFailure:appendRerunFailure", "test.RerunError:appendRerunError"]
 def appendSets : List String := ["appendFailure:Failure", "appendError:Error", "appendSkipped:Skip", "appendSuccess:", "appendFlakyFailure:Failure", "appendFlakyError:Error", "appendRerunFailure:Failure", "appendRerunError:Error"]
-def nestedSuiteField : Bool := false
+def nestedSuiteField : Bool := true
 def caseTags : List String := ["Error=error", "Failure=failure", "FlakyError=flakyError", "FlakyFailure=flakyFailure", "RerunError=rerunError", "RerunFailure=rerunFailure", "Skipped=skipped"]
-def bareCaseFields : List String := []
+def bareCaseFields : List String := ["ClassName", "Name"]
 def xmlPrefixes : List String := ["<?xml", "<test"]
-def goHandled : List String := ["Fail", "Skip", "Pass"]
-def goSets : List (String × String) := [("Fail", "Failure"), ("Skip", "Skip"), ("Pass", "")]
+def goHandled : List String := ["Fail", "Skip", "Pass", "default"]
+def goSets : List (String × String) := [("Fail", "Failure"), ("Skip", "Skip"), ("Pass", ""), ("default", "Error")]
 end PlzVerif.Generated.C26
